@@ -15,21 +15,21 @@ DESIGN_REF = "§5 C13"
 TECHNIQUE = ("Coq: two-cursor differ (stack-of-frames cursors with advance, skipCommon / skipCommonParents with parentsAreNew, stop-cursor "
              "comparison) modelled as implemented and run on the real tree shapes; declarative diff of sorted dictionaries as spec and oracle; "
              "cursor semantics lemma (advance drops exactly the current item at any depth), skip soundness under addr_inj")
-LEVEL_TEXT = ("Proof (F/P): tree_diff_spec / diff_maps_spec — for every pair of well-formed trees of any depths and shapes (related or not), under "
-              "addr_inj (equal child address => equal subtree), the differ as implemented (two stack cursors, advance, skipCommon / skipCommonParents "
-              "with parentsAreNew, past-end stop cursors, either value of considerAllRowsModified) terminates within the model's own fuel and returns "
-              "exactly the byte-level declarative diff of the two flattenings; composed with makeDiffCallBack (modelled explicitly: a Modified whose "
-              "values decode to the same row is dropped) it returns, for every decoding function, the declarative diff on decoded rows "
-              "(list_diff_d: the same row stored canonically on one side and with a kept trailing NULL on the other is not a change). The "
-              "declarative diff is proved ascending with each key at most once. Partial: bounded key ranges (DiffMapsKeyRange / RangeDiffMaps with "
-              "start/stop keys) are proved only for the unbounded range; bounded ranges rest on the correspondence, which probes all three entry "
-              "points on maps holding hand-crafted non-canonical value tuples, with shared and with separately allocated (Equal) descriptors.")
-LEVEL_NOTE = ("Trusted: Coq kernel, Go harness + Python glue. Missing for range_diff_spec: cursor_at_search satisfies the cursor invariant and has "
-              "exactly the entries >= the bound ahead of it; compareCursors against a stop cursor inside the tree orders cursors like the number of "
-              "entries ahead. list_diff_complete (membership <-> key-wise change) is proved for the one-sided cases only. Modelled, not verified: "
-              "tuple comparator, node store, canonical-tuple filter (values are single fixed-width ints).")
-THEOREMS = ["tree_diff_spec", "diff_maps_spec", "canonical_filter_g", "list_diff_d_id", "list_diff_sorted", "list_diff_refl", "advance_cinv", "cursor_at_start_cinv", "skip_ok", "skip_sound",
-            "node_eqb_sound", "key_range_diff_unbounded_partial"]
+LEVEL_TEXT = ("Proof (F): for every pair of well-formed trees of any depths and shapes (related or not), under addr_inj (equal child address => "
+              "equal subtree), the differ as implemented (two stack cursors, advance, skipCommon / skipCommonParents with parentsAreNew, stop "
+              "cursors compared with compareCursors, either value of considerAllRowsModified, the model's own fuel) composed with makeDiffCallBack "
+              "(modelled explicitly) returns, for every decoding of stored values into rows, exactly the declarative diff on decoded rows: "
+              "tree_diff_spec / diff_maps_spec for whole maps, range_diff_spec for DiffMapsKeyRange and RangeDiffMaps over every [start, stop) "
+              "(absent, empty and inverted bounds included). The declarative diff is proved to list exactly the keys whose presence or value differs, "
+              "with the right kind and values (list_diff_complete), ascending, each key at most once (list_diff_sorted). The model is tied to the code "
+              "by the correspondence, which probes all entry points on maps holding hand-crafted non-canonical value tuples, with shared and with "
+              "separately allocated (Equal) descriptors.")
+LEVEL_NOTE = ("Trusted: Coq kernel, Go harness + Python glue. Proof ingredients: cursor invariant cinv + structural position `located`, "
+              "cursor_at_search has exactly the entries satisfying the start predicate ahead (at_search_props), compareCursors against an in-tree "
+              "stop cursor cuts exactly at the stop predicate (cmp_search), skip_ok / diff_okw / diff_totalw. Modelled, not verified: tuple "
+              "comparator (order on N), node store, RangeDiffMaps probed with ranges on the first key column.")
+THEOREMS = ["tree_diff_spec", "diff_maps_spec", "range_diff_spec", "list_diff_complete", "list_diff_sorted", "canonical_filter_g", "list_diff_d_id",
+            "cmp_search", "at_search_props", "advance_cinv", "skip_ok", "skip_sound", "node_eqb_sound"]
 RULE = ("value rows in two byte encodings (canonical / trailing NULL kept, hand-crafted) on either or both sides; second map with shared or separately "
         "allocated Equal descriptors; pairs of maps of 0..400 entries with trees of 1..3 levels: B derived from A by 0..all-keys edits through the mutable map (shared chunks), or "
         "built independently (unrelated, different heights); key ranges unbounded / inside shared subtrees / empty / inverted / past the end; "
